@@ -357,7 +357,7 @@ def explore5(uni, depth, rep, dl):
 def main():
     tier = sys.argv[1] if len(sys.argv) > 1 else 'quick'
     rep = Report('C05', tier, 'model_checking')
-    dl = deadline(tier, 240, 1500)
+    dl = deadline(tier, 900, 1500)
     tot = {'states': 0, 'transitions': 0, 'failing_calls': 0}
     per, samples, exhaustive = {}, [], True
     for cls, dq, dt in [(V2, 2, 3), (V3, 2, 3), (V4, 2, 3)]:
